@@ -1,20 +1,20 @@
 #!/bin/bash
 # tools/store_seed.sh <ID> <needs> <caught_by>   (maintainer-side; copies a confirmed seeded change into /verif/seeded/<ID>/)
 ID=$1; NEEDS=$2; CAUGHT=$3
-S=/verif/seeded/$ID; O=/tmp/seed-$ID-out
+P=${SEEDPFX:-seed}; SUB=${SEEDSUB:-}; S=/verif/seeded/$ID$SUB; O=/tmp/$P-$ID-out
 mkdir -p $S
 cp $O/patch.diff $S/
 for f in $O/*_test.go $O/*.go $O/zz_demo $O/README* $O/notes.md; do [ -e "$f" ] && cp -r "$f" $S/; done
-python3 - "$ID" "$NEEDS" "$CAUGHT" <<'PY'
+python3 - "$ID" "$NEEDS" "$CAUGHT" "$O" "$S" <<'PY'
 import json,sys,re,os
-i,needs,caught=sys.argv[1:4]
+i,needs,caught,O,S=sys.argv[1:6]
 props={json.loads(l)['id']:json.loads(l) for l in open('/verif/properties.jsonl')}
-conf=open(f'/tmp/seed-{i}-out/confirm.txt').read() if os.path.exists(f'/tmp/seed-{i}-out/confirm.txt') else ''
+conf=open(f'{O}/confirm.txt').read() if os.path.exists(f'{O}/confirm.txt') else ''
 meta={"property":i,"title":props[i]['title'],"needs_to_manifest":needs,
  "confirmed":{"demo_without_patch_exit":re.findall(r'== demo without patch\nexit=(\d+)',conf),"demo_with_patch_exit":re.findall(r'== demo with patch\nexit=(\d+)',conf),
    "suite_with_patch":re.findall(r'(ok-pkgs=\d+ fail-lines=\d+)',conf),"suite_note":"failures, if any, are the timing/GC-based tests TestPretouchSynteaRoot / TestStringReferring, which also flake on the unchanged tree under load; re-run alone they pass",
-   "how":"tools/confirm_seed.sh in the scratch worktree /tmp/seed-%s (demo without patch, with patch, unedited suite with patch)"%i},
- "caught_by":caught,"how_checked":"git -C /repo apply seeded/%s/patch.diff; ./check <ID> quick; git -C /repo checkout -- ."%i}
-json.dump(meta,open(f'/verif/seeded/{i}/meta.json','w'),indent=1)
+   "how":"tools/confirm_seed.sh in a scratch worktree of /repo under /tmp (demo without patch, with patch, unedited suite with patch)"},
+ "caught_by":caught,"how_checked":"git -C /repo apply %s/patch.diff; ./check <ID> quick; git -C /repo checkout -- ."%S}
+json.dump(meta,open(f'{S}/meta.json','w'),indent=1)
 PY
 ls $S
